@@ -46,6 +46,7 @@ type Msg struct {
 	Level   int    `json:"level,omitempty"` // 100 = leave; else SetCompressionLevel(level)
 	Ping    int    `json:"ping,omitempty"`  // >0: the sender first sends a ping of Ping-1 bytes
 	Both    bool   `json:"both,omitempty"`  // Prepared: the same prepared message is also sent in the other direction
+	DataEOF bool   `json:"data_eof,omitempty"` // ReadFrom: the source returns its last bytes together with io.EOF
 }
 
 type Case struct {
@@ -127,8 +128,10 @@ func write(c *websocket.Conn, m Msg, p []byte, pm *websocket.PreparedMessage) er
 			return fmt.Errorf("WriteString: %v", err)
 		}
 	case "ReadFrom":
-		var r io.Reader = bytes.NewReader(p)
-		r = &xport.SegReader{R: r, Sched: m.Parts}
+		var r io.Reader = &xport.SegReader{R: bytes.NewReader(p), Sched: m.Parts}
+		if m.DataEOF {
+			r = &xport.DataEOFReader{B: append([]byte(nil), p...), Sched: m.Parts}
+		}
 		if n, err := io.Copy(w, r); err != nil || n != int64(len(p)) {
 			return fmt.Errorf("io.Copy = %d, %v", n, err)
 		}
@@ -378,6 +381,9 @@ func genCase(t *rapid.T) Case {
 		case "Prepared":
 			m.Both = rapid.Bool().Draw(t, "both")
 		}
+		if m.API == "ReadFrom" {
+			m.DataEOF = rapid.Bool().Draw(t, "dataeof")
+		}
 		m.Read = rapid.SampledFrom([]string{"ReadMessage", "ReadMessage", "NextReader"}).Draw(t, "read")
 		if m.API == "JSON" && rapid.Bool().Draw(t, "rdjson") {
 			m.Read = "ReadJSON"
@@ -472,7 +478,7 @@ func TestSizeSweep(t *testing.T) {
 					c.Client = wsx.Config{ReadBuf: 256, WriteBuf: wb, Compression: comp}
 					c.Server = wsx.Config{ReadBuf: 256, WriteBuf: wb, Compression: comp}
 					for i, s := range sizes {
-						c.Msgs = append(c.Msgs, Msg{From: from, Type: 1 + i%2, Size: s, Fill: uint64(s + 1), Flat: i%3 == 0, API: api, Parts: []int{wb + 1, 3}, Read: "ReadMessage", Level: 100})
+						c.Msgs = append(c.Msgs, Msg{From: from, Type: 1 + i%2, Size: s, Fill: uint64(s + 1), Flat: i%3 == 0, API: api, Parts: []int{wb + 1, 3}, Read: "ReadMessage", Level: 100, DataEOF: i%2 == 1})
 					}
 					err := ev.Try(func() error { _, e := runCase(c); return e })
 					rec.Case(true, ev.Hash(c), nil, func() any { return brief(c) })
